@@ -239,8 +239,14 @@ pub struct Ctx<G: AffineRepr> {
     pub alloc_calls: Cell<usize>,
     /// what that call returned: Ok(handles) is recorded as Ok, Err(e) as the error
     pub missing_result: RefCell<Option<Result<(), R1CSError>>>,
+    /// multipliers_len() before and after that call
+    pub missing_len: Cell<Option<(usize, usize)>>,
+    /// after the failed call, make the same call with its assignment and carry on
+    pub missing_retry: Cell<bool>,
     /// number of linear combinations built so far (selects the spelling)
     pub lc_count: Cell<usize>,
+    /// how far the verifier's spelling is rotated against the prover's (0: same spelling)
+    pub lc_shift: Cell<usize>,
 }
 
 impl<G: AffineRepr> Ctx<G> {
@@ -257,7 +263,10 @@ impl<G: AffineRepr> Ctx<G> {
             missing_at: Cell::new(None),
             alloc_calls: Cell::new(0),
             missing_result: RefCell::new(None),
+            missing_len: Cell::new(None),
+            missing_retry: Cell::new(false),
             lc_count: Cell::new(0),
+            lc_shift: Cell::new(3),
         })
     }
     fn real(&self, v: &Var) -> Variable<Fr<G>> {
@@ -275,7 +284,7 @@ impl<G: AffineRepr> Ctx<G> {
     fn real_lc(&self, terms: &[(Var, Fr<G>)]) -> LinearCombination<Fr<G>> {
         let k = self.lc_count.get();
         self.lc_count.set(k + 1);
-        let style = (k + if self.is_prover { 0 } else { 3 }) % 8;
+        let style = (k + if self.is_prover { 0 } else { self.lc_shift.get() }) % 8;
         let term = |v: &Var, c: Fr<G>| -> LinearCombination<Fr<G>> {
             if matches!(v, Var::One) && k % 2 == 0 {
                 LinearCombination::from(c)
@@ -380,13 +389,18 @@ where
             let k = ctx.alloc_calls.get();
             ctx.alloc_calls.set(k + 1);
             if ctx.is_prover && ctx.missing_at.get() == Some(k) {
+                let len_before = cs.multipliers_len();
                 let r = match op {
                     Op::Alloc { .. } => cs.allocate(None).map(|_| ()),
                     _ => cs.allocate_multiplier(None).map(|_| ()),
                 };
                 *ctx.missing_result.borrow_mut() = Some(r.clone());
-                // a gadget stops at the error
-                return Err(r.err().unwrap_or(R1CSError::GadgetError { description: "harness: call without assignment succeeded".into() }));
+                ctx.missing_len.set(Some((len_before, cs.multipliers_len())));
+                if !(ctx.missing_retry.get() && r.is_err()) {
+                    // a gadget stops at the error
+                    return Err(r.err().unwrap_or(R1CSError::GadgetError { description: "harness: call without assignment succeeded".into() }));
+                }
+                // retry mode: the caller supplies the assignment after all and carries on
             }
         }
         match op {
@@ -547,6 +561,7 @@ pub struct ProveOpts<G: AffineRepr> {
     pub direct_vars: bool,
     /// make the k-th allocation call without an assignment
     pub missing_at: Option<usize>,
+    pub missing_retry: bool,
     /// continue on this transcript instead of creating a fresh one (chained proofs)
     pub start: Option<Transcript>,
     /// the caller's RNG cannot deliver randomness
@@ -569,6 +584,7 @@ pub struct ProveOut<G: AffineRepr> {
     pub script: Option<instr::ScriptStatus>,
     pub cap: usize,
     pub missing_result: Option<Result<(), R1CSError>>,
+    pub missing_len: Option<(usize, usize)>,
     /// the transcript after proving (for chaining)
     pub end: Option<Transcript>,
 }
@@ -593,6 +609,7 @@ pub fn run_prover<G: CurveTag>(prog: &Program, opts: &ProveOpts<G>) -> ProveOut<
         ctx
     };
     ctx.missing_at.set(opts.missing_at);
+    ctx.missing_retry.set(opts.missing_retry);
     let mut rng = CountingRng::new(opts.seed.unwrap_or(prog.seed), 1);
     rng.failing = opts.failing_rng;
     let mut t = match &opts.start {
@@ -661,6 +678,7 @@ pub fn run_prover<G: CurveTag>(prog: &Program, opts: &ProveOpts<G>) -> ProveOut<
         script: None,
         cap,
         missing_result: ctx.missing_result.borrow().clone(),
+        missing_len: ctx.missing_len.get(),
         end: None,
     };
     match res {
@@ -736,6 +754,7 @@ pub fn run_verifier<G: CurveTag>(
     let gens = bp_gens_mode::<G>(cap, prog.party_cap as usize, prog.gens.wrapping_add(1));
     let pc = opts.pc_gens.unwrap_or_else(|| prog_pc::<G>(prog));
     let ctx = Ctx::<G>::new(false, commitments.to_vec());
+    ctx.lc_shift.set(if prog.seed % 2 == 0 { 0 } else { 3 });
     let mut t = match &opts.start {
         Some(s) => {
             let mut t = s.clone();
@@ -813,6 +832,7 @@ pub fn run_batch<G: CurveTag>(
         let mut instances = vec![];
         for (m, t) in members.iter().zip(transcripts.iter_mut()) {
             let ctx = Ctx::<G>::new(false, m.commitments.to_vec());
+            ctx.lc_shift.set(if m.prog.seed % 2 == 0 { 0 } else { 3 });
             let mut v = Verifier::<G, &mut Transcript>::new(t);
             run_phase1(&mut v, &m.prog.ops, &ctx).expect("verifier-side construction never fails");
             instances.push((v, m.proof));
